@@ -220,6 +220,7 @@ package hpack
 //@   ensures [C18:size-update-only-at-block-start] !old(d.firstField) && old(d.dynTab.size) > 0 ==> err != nil && err != errNeedMore && d.buf == old(d.buf) && d.dynTab.maxSize == old(d.dynTab.maxSize) && d.dynTab.table.ents == old(d.dynTab.table.ents)
 //@   ensures [C18:size-update-within-allowed-maximum] err == nil ==> d.dynTab.maxSize <= d.dynTab.allowedMaxSize && d.dynTab.size <= d.dynTab.maxSize
 //@   ensures [C18:new-limit-is-the-decoded-integer] err == nil ==> d.dynTab.maxSize == vint(5, old(d.buf))
+//@   ensures [C18:size-update-within-the-allowed-maximum-is-accepted] err != nil && err != errNeedMore && (old(d.firstField) || old(d.dynTab.size) == 0) && !(len(old(d.buf)) >= 10 && (forall j int :: 1 <= j && j < 10 ==> old(d.buf)[j] >= 128)) ==> vint(5, old(d.buf)) > old(d.dynTab.allowedMaxSize)
 //@   ensures [C18:success-consumes-a-prefix] err == nil ==> len(d.buf) < len(old(d.buf)) && d.buf == old(d.buf)[len(old(d.buf)) - len(d.buf):]
 //@   ensures [C18:failure-changes-nothing] err != nil ==> d.buf == old(d.buf) && d.dynTab.maxSize == old(d.dynTab.maxSize) && d.dynTab.table.ents == old(d.dynTab.table.ents) && d.dynTab.size == old(d.dynTab.size)
 //@   ensures [C18:table-stays-consistent] smallState(d) || (err != nil && err != errNeedMore)
